@@ -51,6 +51,16 @@ def main() -> int:
         ctx = Ctx(prop, repo, args.tier, seed)
         mod = importlib.import_module(f"sa.props.{prop.lower()}")
         explanation = mod.check(ctx) or mod.__doc__ or ""
+        if args.tier == "thorough" and os.environ.get("VERIF_SELFTEST", "1") != "0":
+            from sa.core import new_findings
+            from sa.selftest import selftest
+
+            base = {f.key for f in new_findings(ctx)}
+            if not base:  # on a violating tree every variant "fires" trivially: skip
+                st = selftest(prop, args.repo, base)
+                ctx.selftest = st
+                if not st["ok"]:
+                    return finish(ctx, explanation.strip(), level, t0, error=f"self-test of the checker failed: missed variants {st['missed']}, format twin {st['twin']}")
         return finish(ctx, explanation.strip(), level, t0)
     except AnalysisError as e:
         if ctx is None:
